@@ -706,10 +706,54 @@ func runC16(res *Result, rng *RNG, tier string, outDir string) {
 		nfam = 100
 	}
 	sh := newChainShards(outDir, "C16", 3)
+	// ONE key source value serves every verification of the run (an application keeps one
+	// around): a registry of the families' keys by id plus a default key, filled as families
+	// appear.  Its answers must not depend on what it was asked before.
+	f0r := rng.Fork()
+	f0 := newFamilyShared(f0r, newOracle())
+	f0.append(f0r, f0.build(f0r, nil))
+	sharedDefault := ed25519.PublicKey(f0.pub)
+	sharedMap := map[uint32]ed25519.PublicKey{}
+	sharedProj := biscuit.WithRootPublicKeys(sharedMap, &sharedDefault)
+	sharedCheck := func(t *famToken, who string) {
+		var key []byte
+		if t.C.RootID == nil {
+			key = sharedDefault
+		} else if v, ok := sharedMap[*t.C.RootID]; ok {
+			key = v
+		}
+		class, _, pan := verifyGo(t.Bytes, sharedProj)
+		res.Count("shared-source "+who+string(t.Bytes), true)
+		res.Dist("shared-source:" + class)
+		rep := map[string]interface{}{"token_id": rootIDString(t.C.RootID), "outcome": class, "token": fmt.Sprintf("%x", t.Bytes), "note": "the same WithRootPublicKeys value is used for every token of the run, tokens with and without an id alternating"}
+		if pan != "" {
+			res.Violate("panic:lookup", "key lookup panicked: "+pan, rep)
+			return
+		}
+		expect := "verify:EInvalidSignature"
+		switch {
+		case len(key) == 0:
+			expect = "verify:ENoPublicKey"
+		case refChainValid(key, t.C):
+			expect = "ok"
+		}
+		if class != expect {
+			res.Violate("lookup:shared-key-source", fmt.Sprintf("a key source used for several tokens: token id %s gives %s, expected %s (its answer depends on an earlier lookup)", rootIDString(t.C.RootID), class, expect), rep)
+		}
+	}
 	for fi := 0; fi < nfam; fi++ {
 		r := rng.Fork()
 		f := newFamilyShared(r, sh.nextFamily())
 		genFamilyInto(f, r, true)
+		if id := f.toks[0].C.RootID; id != nil {
+			if _, taken := sharedMap[*id]; !taken {
+				sharedMap[*id] = ed25519.PublicKey(f.pub)
+			}
+		}
+		for ti, t := range f.toks {
+			sharedCheck(t, "family")
+			sharedCheck(f0.toks[ti%len(f0.toks)], "default") // a token without id right after
+		}
 		sh.cc = append(sh.cc, f.chain...)
 		sh.cd = append(sh.cd, f.chainD...)
 		wrongSeed := r.Bytes(32)
